@@ -170,6 +170,101 @@ def shard_crossover(col, module, chrom_len, pop_bound):
         _rm(scratch)
 
 
+# Hand-written NON-INITIAL states (the factory needs several non-default answers to build them, which
+# would use up the deviation budget of the operations that follow): collections next to in-scope variables.
+ROOTS = [
+    [("var_0 = 5", int), ("var_1 = []", list)],
+    [("var_0 = 5", int), ("var_1 = [var_0]", list)],
+    [("var_0 = 5", int), ("var_1 = 'a'", str), ("var_2 = (var_0,)", tuple)],
+    [("var_0 = 'a'", str), ("var_1 = {}", dict)],
+    [("var_0 = 5", int), ("var_1 = {var_0}", set), ("var_2 = [var_1]", list)],
+    [("var_0 = 5", int), ("var_1 = 6", int), ("var_2 = [var_1]", list)],
+]
+
+
+def _build_root(root_index, warm):
+    import pynguin.testcase.testcase as tc
+    from mc import pyn
+    root = tc.TestCase()
+    for code, typ in ROOTS[root_index]:
+        name = root.next_var_name()
+        bv = code.split(" =", 1)[0]
+        assert name in (None, bv), (name, bv)
+        root.add_statement(pyn.stmt(code, bound_variable=bv, bound_type=typ))
+    if root._var_counter < root.size():  # noqa: SLF001
+        root._var_counter = root.size()  # noqa: SLF001
+    pre = wellformed.check(root)
+    assert not pre, f"root {root_index} is not well-formed: {pre}"
+    if warm:
+        # what any earlier dependency scan / crossover / clone of a scanned test case leaves behind
+        for st in root.statements():
+            st.used_variables()
+    return root
+
+
+def shard_roots(col, module, root_index, warm, max_len, bounds):
+    """Every positional operation sequence on a hand-written root, cold and with warmed statement caches."""
+    from mc import pyn
+
+    scratch = _scratch()
+    try:
+        world = tcenum.World(module, scratch, config_over={"search_algorithm__chromosome_length": 40})
+        world.index_full_upto = 12
+        root = _build_root(root_index, warm)
+        n = root.size()
+        alphabet = [("mutate_value_at", p) for p in range(n)] + [("delete_at", p) for p in range(n)] + \
+                   [("remove_unused",), ("mut_change",), ("mut_delete",)]
+        for length in range(1, max_len + 1):
+            for seq in itertools.product(alphabet, repeat=length):
+                script = list(seq)
+                state = {}
+
+                def on_step(i, op, chrom, state=state):
+                    t = chrom.test_case
+                    col.count("transitions")
+                    k = tcenum.canon(t)
+                    col.distinct("states", k)
+                    if k != state.get("canon"):
+                        col.distinct("root_ops_with_effect", op[0])
+                    state["canon"] = k
+                    probs = wellformed.check(t) + wellformed.check_clone(t)
+                    if probs:
+                        state.setdefault("probs", []).append((i, op[0], probs))
+
+                def run(ch, script=script, state=state):
+                    state.clear()
+                    state["canon"] = tcenum.canon(root)
+                    try:
+                        world.run_script(script, ch, start=root, on_step=on_step)
+                    except Exception as exc:  # noqa: BLE001
+                        import traceback
+                        tb = traceback.extract_tb(exc.__traceback__)
+                        where = next((f"{f.name}" for f in reversed(tb) if "/pynguin/" in f.filename), "?")
+                        state.setdefault("probs", []).append(
+                            (-1, "script", [(f"raises:{type(exc).__name__}@{where}", repr(exc)[:200])]))
+                    return list(state.get("probs", []))
+
+                def on_exec(ch, probs, script=script):
+                    col.count("traces_validated_against_impl")
+                    col.count("root_executions")
+                    for (i, opname, plist) in probs:
+                        for sig, detail in plist:
+                            col.violation(_classify(opname.replace("_at", ""), sig),
+                                          f"after {opname} (step {i}) on root {root_index} "
+                                          f"({'warm' if warm else 'cold'} caches):\n{root.to_code()}{sig} {detail}",
+                                          {"module": module, "root": root_index, "warm": warm,
+                                           "script": [list(o) for o in script], "choices": ch.choices},
+                                          rank=ch.deviations * 100 + len(ch.points))
+
+                _, capped = explore_deviations(run, bounds[length], on_exec, max_execs=20000)
+                if capped:
+                    col.count("capped_scripts")
+                col.count("scripts")
+        world.close()
+    finally:
+        _rm(scratch)
+
+
 def _chain_depth(test_case):
     """Length of the longest def-use chain of var_N names in the test case."""
     depth = {}
@@ -215,6 +310,12 @@ def run(ctx):
     par.run_shards("props.c15_wellformed:shard", jobs, ctx.workers, ctx)
     xjobs = [(m, cl, 1 if quick else 2) for m in modules for cl in (3, 40)]
     par.run_shards("props.c15_wellformed:shard_crossover", xjobs, ctx.workers, ctx)
+    rbounds = {1: 2, 2: 1, 3: 1} if quick else {1: 3, 2: 2, 3: 1}
+    rjobs = [("containers", r, w, 3, rbounds) for r in range(len(ROOTS)) for w in (False, True)]
+    par.run_shards("props.c15_wellformed:shard_roots", rjobs, ctx.workers, ctx)
+    ctx.require(len(ctx.col.sets.get("root_ops_with_effect", ())) >= 4,
+                "vacuous: the positional operations on the hand-written roots had no effect")
+    ctx.note("roots", [[c for c, _ in r] for r in ROOTS])
     capped = ctx.col.counters.get("capped_scripts", 0)
     ctx.exhaustive = capped == 0
     ctx.note("capped_scripts", capped)
@@ -232,6 +333,8 @@ def run(ctx):
                 f"every execution with <= d non-default RNG answers, d by script length {bounds} "
                 f"(cap {max_execs} executions per script); "
                 "plus every splice of every ordered pair of enumerated test cases at every position pair; "
+                "plus every sequence of <= 3 positional operations (mutate_value / delete at each position, "
+                "remove_unused, change, delete) on each hand-written root, cold and with warmed statement caches; "
                 "states = distinct (code, bound types, accessibles) test cases")
     ctx.assume("RNG answers range over the finite menus of mc/rng.py")
 
@@ -240,7 +343,22 @@ def replay(ctx, data):
     import pynguin.configuration as config
     scratch = ctx.scratch()
     world = tcenum.World(data["module"], scratch,
-                         config_over={"search_algorithm__chromosome_length": data["chromosome_length"]})
+                         config_over={"search_algorithm__chromosome_length": data.get("chromosome_length", 40)})
+    world.index_full_upto = 12
+    if "root" in data:
+        root = _build_root(data["root"], data["warm"])
+
+        def on_root_step(i, op, chrom):
+            for sig, detail in wellformed.check(chrom.test_case) + wellformed.check_clone(chrom.test_case):
+                ctx.violation(_classify(op[0].replace("_at", ""), sig),
+                              f"replay step {i}: {detail}\n{chrom.test_case.to_code()}", data)
+        try:
+            world.run_script([tuple(o) for o in data["script"]], Chooser(data["choices"]), start=root,
+                             on_step=on_root_step)
+        except Exception as exc:  # noqa: BLE001
+            ctx.violation(_classify("script", f"raises:{type(exc).__name__}"), repr(exc), data)
+        world.close()
+        return
     if "script" in data:
         script = [tuple(o) for o in data["script"]]
         sizes = [0]
